@@ -93,10 +93,24 @@ theorem vshow_overrides_display (pre post : List (Str × Str)) (old : Str) (hpre
     mergeStyleDecl (pre ++ (S "display", old) :: post) (S "display", S "none") = pre ++ (S "display", S "none") :: post :=
   style_override_in_place pre post _ old _ hpre
 
+/-- a bracketed key is on no ignore list: it begins with `[`, no directive name does (proved from the regenerated definitions whatever their
+    shape — an early return for bracketed keys, a list of comparisons, a lookup in a set of names) -/
+theorem literal_attr_not_ignored (k : Str) (hl : Generated.isLiteralAttr k = true) : Generated.shouldIgnoreAttr k = false := by
+  have hk : ∃ r, k = '[' :: r := by
+    cases k with
+    | nil => simp [Generated.isLiteralAttr, Go.hasPrefix] at hl
+    | cons c r =>
+      have : c = '[' := by
+        simp [Generated.isLiteralAttr, Go.hasPrefix] at hl
+        exact hl.1
+      exact ⟨r, by rw [this]⟩
+  obtain ⟨r, rfl⟩ := hk
+  simp [Generated.shouldIgnoreAttr, Generated.isLiteralAttr]
+
 /-- (5) bracketed attributes: the serialiser writes `[attr]` as `attr` … -/
 theorem bracket_key_unwrapped (k v : Str) (rest : List Attr) (hl : Generated.isLiteralAttr k = true) :
     renderAttrs ((k, v) :: rest) = ' ' :: ((k.drop 1).dropLast ++ ['=', '"'] ++ Generated.escapeAttrValue v ++ ['"'] ++ renderAttrs rest) := by
-  have : Generated.shouldIgnoreAttr k = false := by simp [Generated.shouldIgnoreAttr, hl]
+  have : Generated.shouldIgnoreAttr k = false := literal_attr_not_ignored k hl
   simp [renderAttrs, this, hl]
 
 /-- … and evaluation leaves its value untouched when it holds no mustache (PARTIAL: with a mustache it IS interpolated — recorded finding
